@@ -1048,6 +1048,9 @@ impl Melda {
         self.deltas.write().unwrap().clear();
         // Reload data storage
         let mut data = self.data.write().expect("cannot_acquire_data_for_writing");
+        // No revision is staged (checked above): staged objects, if any, are orphans
+        // (e.g. left behind by remove_object) and must not make the reload fail half-way
+        data.unstage()?;
         data.reload()?;
         drop(data);
         // Clear the deltas
@@ -1250,6 +1253,8 @@ impl Melda {
         drop(data_r);
         // Reload data storage
         let mut data_w = self.data.write().expect("cannot_acquire_data_for_writing");
+        // No revision is staged (checked above): drop orphaned staged objects
+        data_w.unstage()?;
         data_w.reload()?;
         drop(data_w);
         // Clear the deltas
